@@ -30,22 +30,27 @@ val find_define_component : node list -> coq_N option
 
 val post_import : node -> st -> st
 
+type mode =
+| MExpr
+| MNoLower
+| MSwitch
+| MStmts
+
 val visit_list_with :
-  (bool -> node -> st -> node * st) -> bool -> node list -> st -> node
+  (mode -> node -> st -> node * st) -> mode -> node list -> st -> node
   list * st
 
+val jsx_item_mode : node -> mode
+
 val visit_jsx_list_with :
-  (bool -> node -> st -> node * st) -> node list -> st -> node list * st
+  (mode -> node -> st -> node * st) -> node list -> st -> node list * st
 
 val visit_stmts_with :
-  (bool -> node -> st -> node * st) -> node list -> st -> node list * st
-
-val visit_switch_fields_with :
-  (bool -> node -> st -> node * st) -> node list -> st -> node list * st
+  (mode -> node -> st -> node * st) -> node list -> st -> node list * st
 
 val visit :
   env -> (node -> st -> node * st) -> (node -> st -> node * st) -> (node ->
-  st -> st) -> bool -> node -> st -> node * st
+  st -> st) -> mode -> node -> st -> node * st
 
 val pragma_in_text : nat -> str -> str option
 
